@@ -8,7 +8,13 @@ import (
 	"github.com/avfs/avfs/idm/memidm"
 )
 
-func init() { commands["idm"] = runIdm }
+func init() {
+	commands["idm"] = runIdm
+	// the same histories on a Windows-typed MemIdm (other administrator names); needs the build with -tags avfs_setostype
+	commands["idmwin"] = func(cfg config) { idmWindows = true; runIdm(cfg) }
+}
+
+var idmWindows bool
 
 type idmOp struct {
 	kind string
@@ -113,6 +119,9 @@ func applyIdm(idm *memidm.MemIdm, o idmOp) (res string) {
 
 func runIdmHistory(ops []idmOp) (string, string, []string) {
 	idm := memidm.New()
+	if idmWindows {
+		idm = memidm.NewWithOptions(&memidm.Options{OSType: avfs.OsWindows})
+	}
 	an, gn := avfs.AdminUserName(idm.OSType()), avfs.AdminGroupName(idm.OSType())
 	var sb strings.Builder
 	sb.WriteString(tok(an) + " " + tok(gn))
@@ -158,6 +167,9 @@ func runIdm(cfg config) {
 		"(admin names included); per (state, mutator) one history = path to the state + the mutator + every lookup by name and by id; " +
 		"then seeded random histories; a case is non-trivial when it is distinct (as a full result vector) and contains at least one success and one error"
 	names := []string{"root", "a", "b", ""}
+	if idmWindows {
+		names = []string{avfs.AdminUserName(avfs.OsWindows), avfs.AdminGroupName(avfs.OsWindows), "a", ""}
+	}
 	ids := []int{0, 1000, 1001, 1002, 1003, 1004, -1}
 	depth, nrand, randLen := 4, 200, 60
 	if cfg.tier == "thorough" {
